@@ -23,6 +23,11 @@ Monitor shape: history + executable model (differential) + invariant + reference
                  the history left them) must equal those of the instrument built from the values as set, or all those
                  of one built from the container's current contents; a mixture, or a broken invariant, is reported as
                  alias:<Class>.<attr>:caller-<form>-mutated-changes-instrument.
+  returned     : returned-array history monitor: every array an earlier calibrate() call returned (mid-history calls on
+                 earlier pixel layouts, the final call, a call on a second live instrument with the same parameters,
+                 further calls with other source spectra) is kept with a snapshot and re-judged after every later
+                 calibrate() call -- it must be unchanged, i.e. value x width still equals ITS spectrum's integral;
+                 the caller overwriting one result must change no other held result and no later result.
   calibration  : calibrate(Spectrum) value * pixel width against the exact integral of the piecewise-linear
                  interpolant through the bin centres with nearest extrapolation (Raysect's documented
                  Spectrum.integrate semantics), computed per pixel with numpy.interp + math.fsum.
@@ -78,7 +83,7 @@ QUICK = dict(cases=900, workers=2, timecap=45)
 THOROUGH = dict(cases=40000, workers=16, timecap=420)
 REQUIRED = {"diff_final": 600, "diff_shadow": 3000, "diff_read": 700, "inv_range": 12000, "inv_binwidth": 12000,
             "calib": 20000, "set_accepted": 350, "set_rejected": 40, "pixels_echo": 60,
-            "alias_judged": 60, "getter_write": 60}
+            "alias_judged": 60, "getter_write": 60, "calib_held": 100000, "calib_caller_write": 80}
 
 _S = {"in_monitor": False, "memo": None}
 
@@ -535,17 +540,18 @@ def compare(ctx, cname, obs, got, want, where, last_set, monitor):
 # calibration oracle
 # ----------------------------------------------------------------------------------------------
 
-def ref_pixel_integrals(centres, samples, edges):
+def ref_pixel_integrals(centres, samples, edges, idx=None):
     """Exact integral of the piecewise-linear interpolant (constant beyond the outer nodes) over every pixel, with
     the integral of |f| (tolerance scale) and the largest |sample| bracketing the pixel (rounding floor)."""
-    n = edges.size - 1
+    pix = np.arange(edges.size - 1) if idx is None else idx
+    n = len(pix)
     want = np.empty(n)
     scale = np.empty(n)
     ymax = np.empty(n)
     asamp = np.abs(samples)
-    for i in range(n):
-        a = edges[i]
-        b = edges[i + 1]
+    for i, ip in enumerate(pix):
+        a = edges[ip]
+        b = edges[ip + 1]
         i0 = int(np.searchsorted(centres, a, side="right"))
         i1 = int(np.searchsorted(centres, b, side="left"))
         if i1 > i0:
@@ -591,7 +597,31 @@ def resolve_spectrum(spec, lo, hi, first_width):
     raise ValueError("unknown range mode")
 
 
-def check_calibration(ctx, inst, cname, spec, pool, tag):
+def rejudge_held(ctx, trigger):
+    """Returned-array history monitor: every result an earlier calibrate() call handed out (any instrument alive in the
+    case, any earlier pixel layout) still is the caller's value -- unchanged since it was returned, hence still obeying
+    the integral law for ITS spectrum -- after whatever calibrate() calls happened since."""
+    for h in _S["held"]:
+        for k, (arr, snap) in enumerate(zip(h["arrays"], h["snaps"])):
+            ctx.mon("calib_held", int(snap.size))
+            if arr.shape == snap.shape and np.array_equal(arr, snap, equal_nan=True):
+                continue
+            law = None
+            if h["law"][k] is not None and arr.shape == snap.shape:
+                idx, width, want, atol = h["law"][k]
+                law = bool(np.all(np.abs(arr[idx] * width - want) <= atol))
+            ctx.viol("calibration:%s:earlier-result-changed-by-%s" % (h["cname"], trigger),
+                     "an array returned by an earlier calibrate() call changed after %s: value x width of that result no "
+                     "longer equals its own spectrum's integral over the pixel" % trigger.replace("-", " "),
+                     held_from=h["tag"], spectrum=k, integral_law_still_holds=law,
+                     n_changed=int(np.sum(arr != snap)) if arr.shape == snap.shape else -1,
+                     shares_memory_with_a_later_result=any(np.shares_memory(arr, o) for g in _S["held"] if g is not h
+                                                           for o in g["arrays"]))
+            return False
+    return True
+
+
+def check_calibration(ctx, inst, cname, spec, pool, tag, max_pixels=None):
     Spectrum = _S["Spectrum"]
     lo_o = observe(inst, "min_wavelength", pool)
     hi_o = observe(inst, "max_wavelength", pool)
@@ -620,21 +650,39 @@ def check_calibration(ctx, inst, cname, spec, pool, tag):
     if not ok:
         return
     eps = 2.3e-16
+    entry = {"cname": cname, "tag": tag, "arrays": [], "snaps": [], "law": []}
     for k, (edges, val) in enumerate(zip(arrays, out)):
+        if isinstance(val, np.ndarray):
+            entry["arrays"].append(val)                    # the very object the caller was handed
+            entry["snaps"].append(val.copy())
+            entry["law"].append(None)
         val = np.asarray(val, dtype=float)
         if not ctx.check(val.shape == (edges.size - 1,), "calibration:%s:wrong-number-of-pixels" % cname,
                          "calibrate() returned shape %s for %d pixels" % (val.shape, edges.size - 1), monitor="calib_shape"):
             return
-        want, scale, ymax = ref_pixel_integrals(centres, samples, edges)
-        width = np.diff(edges)
+        npx = edges.size - 1
+        idx = np.arange(npx)
+        if max_pixels is not None and npx > max_pixels:
+            idx = np.unique(np.linspace(0, npx - 1, max_pixels).astype(int))
+        want, scale, ymax = ref_pixel_integrals(centres, samples, edges, idx)
+        width = np.diff(edges)[idx]
         atol = 1e-10 * scale + 16 * eps * ymax * width
-        ctx.close(val * width, want, "calibration:%s:pixel-integral-not-conserved" % cname,
+        if entry["law"]:
+            entry["law"][-1] = (idx, width, want, atol)
+        ctx.close(val[idx] * width, want, "calibration:%s:pixel-integral-not-conserved" % cname,
                   "calibrated pixel value x pixel width differs from the spectrum's integral over the pixel "
                   "(piecewise-linear through the bin centres, nearest extrapolation)",
                   rtol=0.0, atol=atol, monitor="calib", spectrum=k, pixels=int(edges.size - 1), source_bins=bins,
                   source_range=[smin, smax], instrument_range=[lo, hi], samples=spec["samples"]["kind"], at=tag)
         if np.any(scale > 0):
             ctx.nontrivial()
+    # results handed out earlier (this or another instrument, this or an earlier layout) must have survived this call
+    if rejudge_held(ctx, "later-calibrate-call"):
+        for g in _S["held"]:
+            if any(np.shares_memory(a, b) for a in entry["arrays"] for b in g["arrays"]):
+                ctx.cls("calib-results-share-memory")
+        _S["held"].append(entry)
+    return entry
 
 
 # ----------------------------------------------------------------------------------------------
@@ -673,6 +721,7 @@ def run_case(case, ctx):
         worker_init(ctx)
     _S["memo"] = None
     _S["last_view_detail"] = None
+    _S["held"] = []
     with warnings.catch_warnings(), np.errstate(all="ignore"):
         warnings.simplefilter("ignore")
         try:
@@ -687,7 +736,24 @@ def run_case(case, ctx):
             _S["memo"] = None
             _S["where"] = None
             _S["truth"] = None
+            _S["held"] = []
             _flush_counts(ctx)
+
+
+def _probe_returned_lists(ctx, throwaway, cname):
+    """Evidence only (never a verdict): pipeline_kwargs / pipeline_classes have no setter, the list / dicts the getter
+    returns are the only handle a user has to customise create_pipelines(); whether they are the internal objects or
+    copies is not fixed by the wording of C16.  Done on a throw-away instrument."""
+    try:
+        kw = throwaway.pipeline_kwargs
+        if kw:
+            kw[0]["name"] = "<written by the caller>"
+            shared = throwaway.pipeline_kwargs[0]["name"] == "<written by the caller>"
+            ctx.cls("returned-pipeline_kwargs:%s" % ("internal-object" if shared else "copy"))
+            if shared:
+                ctx.skip("outside-wording:pipeline_kwargs-getter-returns-internal-dicts:%s" % cname)
+    except (AttributeError, TypeError, IndexError, KeyError):
+        ctx.cls("returned-pipeline_kwargs:not-probed")
 
 
 def _run(case, ctx):
@@ -787,8 +853,26 @@ def _run(case, ctx):
         ctx.check(got[0] == "ok" and _eq(got[1], want), "pixels:%s.wavelength_to_pixel:differs-from-input-arrays" % cname,
                   "the instrument's pixel-edge arrays are not the (float) values of the arrays it was given",
                   monitor="pixels_echo", reported=_brief(got))
+    _probe_returned_lists(ctx, build(kind, P, pool), cname)
     if kind != "polychromator" and case.get("spectrum") is not None:
         check_calibration(ctx, inst, cname, case["spectrum"], pool, "final")
+        extra = case.get("spectra_extra") or []
+        if extra:
+            # several calls with different source spectra, two instruments alive; earlier results are re-judged after
+            # every call (rejudge_held inside check_calibration)
+            ctx.cls("calib-sequence")
+            check_calibration(ctx, fresh, cname, extra[0], pool, "final+1 (second instrument)", max_pixels=120)
+            e2 = check_calibration(ctx, inst, cname, extra[-1], pool, "final+2", max_pixels=120)
+            # the caller owns what it was handed: writing into one result changes no other result ...
+            if e2 is not None and e2["arrays"] and _S["held"] and _S["held"][-1] is e2:
+                for a, snap in zip(e2["arrays"], e2["snaps"]):
+                    a[...] = -12345.0
+                    snap[...] = -12345.0
+                e2["law"] = [None] * len(e2["arrays"])
+                ctx.mon("calib_caller_write")
+                rejudge_held(ctx, "caller-writing-into-another-result")
+                # ... and no later result
+                check_calibration(ctx, inst, cname, extra[0], pool, "final+3 (after caller wrote into a result)", max_pixels=120)
 
 
 # ----------------------------------------------------------------------------------------------
@@ -1243,6 +1327,7 @@ def gen_case(rng, tier):
             else:
                 ops.append({"op": "calibrate", "spectrum": _gen_spectrum(rng, small=True)})
         case["spectrum"] = _gen_spectrum(rng)
+        case["spectra_extra"] = [_gen_spectrum(rng, small=True), _gen_spectrum(rng, small=True)]
     elif kind == "czerny":
         obs = SPEC_OBS
         for _try in range(200):
@@ -1287,6 +1372,7 @@ def gen_case(rng, tier):
             else:
                 ops.append({"op": "calibrate", "spectrum": _gen_spectrum(rng, small=True)})
         case["spectrum"] = _gen_spectrum(rng)
+        case["spectra_extra"] = [_gen_spectrum(rng, small=True), _gen_spectrum(rng, small=True)]
     else:
         obs = POLY_OBS
         npool = int(rng.integers(2, 11))
@@ -1379,6 +1465,11 @@ def fixed_cases(tier):
                   "ops": [allp, {"op": "set", "attr": "filters", "value": [0], "form": "ndarray"}, allp,
                           {"op": "set", "attr": "filters", "value": [2, 0, 1], "form": "list"},
                           {"op": "set", "attr": "min_bins_per_window", "value": 3}, allp]})
+    for c in cases:
+        if c["kind"] != "polychromator":
+            c["spectra_extra"] = [{"bins": 9, "range": {"mode": "loose", "lo": 0.3, "hi": 0.1},
+                                   "samples": {"kind": "random", "seed": 11, "amp": 3.0}},
+                                  {"bins": 140, "range": {"mode": "exact"}, "samples": {"kind": "smooth", "seed": 12, "amp": 0.5, "nlines": 2}}]
     cases.append({"kind": "spectrometer", "order_seed": 6, "init_form": "ndarray-2d", "final_order": list(SPEC_OBS),
                   "init": {"wavelength_to_pixel": [{"kind": "explicit", "edges": [400, 401, 403, 404]},
                                                    {"kind": "explicit", "edges": [600, 602, 603, 607]}],
